@@ -4,7 +4,7 @@ from collections import Counter
 import common, gen, pool, docrun
 
 THEOREMS = ["Determinism.sort_perm_invariant", "Determinism.numbering_perm_invariant", "Determinism.foldMax_perm_invariant",
-            "Iteration.generated_iteration_sites_ok"]
+            "Iteration.generated_iteration_sites_ok", "Iteration.generated_env_sources_ok"]
 
 
 def run(tier):
